@@ -519,7 +519,7 @@ def _wrapper_cases(ctx):
 WRAP = [{"method": mth, "process": pr, "keep_mean": km}
         for mth in ("normal_to_uniform", "normal_to_arcsin", "normal_to_uquad", "zinnharvey", "normal_force_moments",
                     "normal_to_lognormal", "boxcox", "discrete")
-        for (pr, km) in ((False, True), (True, True), (True, False))]
+        for (pr, km) in ((False, True), (False, False), (True, True), (True, False))]
 FN_WRAP = ["transform/field.py:apply", "transform/field.py:apply_function", "transform/field.py:_pre_process",
            "transform/field.py:_post_process", "field/base.py:Field.transform", "transform/field.py:<method>"]
 
@@ -565,7 +565,7 @@ def wrapper(ctx, method, process, keep_mean):
 
 
 @contract(P, "transform.field.binary/two-values-split-at-divide", params=[{"process": pr, "keep_mean": km, "defaults": d}
-          for (pr, km) in ((False, True), (True, True), (True, False)) for d in (True, False)],
+          for (pr, km) in ((False, True), (False, False), (True, True), (True, False)) for d in (True, False)],
           functions=["transform/field.py:binary", "transform/array.py:array_discrete"], bounded="2 stored field values")
 def binary(ctx, process, keep_mean, defaults):
     m = ctx.m
